@@ -581,6 +581,6 @@ seeded('seeded-R9C17-neighbours-prefiltered-by-sample', ['C17', 'C15'], ['C15.ra
 seeded('seeded-R9C18-start-connections-capped', ['C18'], ['C18.query'])
 seeded('seeded-R9C19-setter-drops-large-fraction', ['C19'], ['C19.forward'])
 seeded('seeded-R9C20-distance-fallback-near-goal', ['C20'], ['C20.goal'])
-for _n in ('ben23-r3', 'ben24-r2', 'ben24-r4', 'ben24-r5', 'ben25-r1', 'ben25-r3', 'ben25-r4', 'ben25-r5',
-           'ben26-r1', 'ben26-r2', 'ben26-r3', 'ben26-r4', 'ben26-r5'):
-    benign_patch(_n, ALL)                                       # deep restructurings that the machinery follows (the seven it does not are in selftest/benign/unsupported, DESIGN 10.20)
+for _n in ('ben23-r2', 'ben23-r3', 'ben23-r4', 'ben24-r1', 'ben24-r2', 'ben24-r3', 'ben24-r4', 'ben24-r5', 'ben25-r1', 'ben25-r3', 'ben25-r4',
+           'ben25-r5', 'ben26-r1', 'ben26-r2', 'ben26-r3', 'ben26-r4', 'ben26-r5'):
+    benign_patch(_n, ALL)                                       # deep restructurings that the machinery follows (the three it does not are in selftest/benign/unsupported, DESIGN 10.20)
